@@ -87,6 +87,9 @@ func TestPropC07(t *testing.T) {
 		if g.Misused {
 			cls = append(cls, "misuse")
 		}
+		if g.LazyOperand {
+			cls = append(cls, "lazy_pipeline_as_list_argument")
+		}
 		if inf.err {
 			cls = append(cls, "error_outcome")
 		}
